@@ -1027,14 +1027,18 @@ class DFA:
     def chain_actions_at_end(self, actions: Iterable["Action"]):
         actions = list(actions)
         start = self.starting_state
-        if actions and start in self.accepting_states and not isinstance(start, DFConditionPoint) and (start[DFTransition.Else] is None or start[DFTransition.Else].error_handling):
+        if actions and start in self.accepting_states and not isinstance(start, DFConditionPoint):
             # No transition enters the starting state, so actions chained into it would be lost whenever the machine passes straight
-            # through it (e.g. skipped optional contents). Leave it through a fallthrough which carries the actions instead.
+            # through it (e.g. skipped optional contents). Leave it through fallthroughs which carry the actions instead.
             end = DFState()
             self.add(end)
             self.accepting_states.remove(start)
             self.chain_actions_into(actions, self.accepting_states)
-            start.transition(DFTransition([DFTransition.Else]).to(end).fallthrough().attach(*actions), allow_replace_if=lambda x: x.error_handling)
+            for trans in start.transitions:
+                if trans.error_handling:
+                    trans.to(end).fallthrough().handles_else(False).attach(*actions)
+            if start[DFTransition.Else] is None:
+                start.transition(DFTransition([DFTransition.Else]).to(end).fallthrough().attach(*actions))
             self.mark_accepting(end)
             return
         self.chain_actions_into(actions, self.accepting_states)
